@@ -201,8 +201,23 @@ func (ls *listenServer) route(r *core.Msg, slot int32) (string, bool) {
 }
 
 // OnMoved process the redis moved/ask packet
+// Asking is sent ahead of a command that follows an ASK redirect, as the cluster protocol requires.
+const Asking = "*1\r\n$6\r\nASKING\r\n"
+
+// maxRedirects bounds the MOVED/ASK redirects followed for one fragment (nodes with inconsistent views
+// could otherwise bounce it forever).
+const maxRedirects = 16
+
 func (ls *listenServer) OnMoved(addr string, slot int32, s core.SConn, f *core.Frag) {
+	ask := f.Type == codec.RspAsk
 	f.RspBody = f.RspBody[:0]
+
+	if f.Redirects >= maxRedirects {
+		logging.Errorf("[%dm|%df][%dc|%ds] too many redirects, last one to %s", f.MsgId(), f.Id, f.OwnerFd(), s.Fd(), addr)
+		core.FailFrag(f, codec.ErrTooManyRedirects)
+		return
+	}
+	f.Redirects++
 
 	logging.Infof("[%dm|%df][%dc|%ds] moved/ask happen, old_addr: %s new_addr: %s, slot: %d, req: %s",
 		f.MsgId(), f.Id, f.OwnerFd(), s.Fd(),
@@ -227,6 +242,13 @@ func (ls *listenServer) OnMoved(addr string, slot int32, s core.SConn, f *core.F
 	delete(f.Peer.Fd2Slot, s.Fd())
 	f.Peer.Fd2Slot[sConn.Fd()] = slot
 
+	if ask {
+		// the importing node only serves the slot for a command that directly follows ASKING
+		asking := core.FragPool.Get()
+		asking.Req = append(asking.Req, Asking...)
+		asking.Discard = true
+		sConn.EnqueueOutFrag(asking)
+	}
 	sConn.EnqueueOutFrag(f)
 }
 
